@@ -91,6 +91,7 @@ def util(script, argv, flavour="rel", files=None, cpu=10, name="ucase", symboliz
     t = tools(flavour)
     d = run.fresh_dir(name)
     for fn, body in (files or {}).items():
+        os.makedirs(os.path.dirname(os.path.join(d, fn)), exist_ok=True)
         with open(os.path.join(d, fn), "wb") as f:
             f.write(body if isinstance(body, bytes) else body.encode("latin-1"))
     kw = {}
